@@ -10,6 +10,8 @@ import (
 	"reflect"
 	"strings"
 
+	stdlog "log"
+
 	"github.com/charmbracelet/log"
 
 	"github.com/flamego/flamego"
@@ -792,20 +794,44 @@ func judgeInj(w *core.W, c *injCase) {
 
 // ---- part B: the real scopes (Flame = application, Context = request) ----------------
 
+// Two interfaces, each satisfied by exactly one of the two logger types every Flame instance maps at application
+// scope. Both types are spelled "*log.Logger" (different packages of the same name): type identity, not spelling.
+type c04Flagger interface{ Flags() int }
+type c04Leveler interface{ GetLevel() log.Level }
+
+// c04Late is a user-defined FastInvoker that lets the rest of the chain run before it looks at its
+// arguments again: they are its own.
+type c04Late func(flamego.Context, *http.Request, *string)
+
+func (f c04Late) Invoke(a []interface{}) ([]reflect.Value, error) {
+	ctx, req := a[0].(flamego.Context), a[1].(*http.Request)
+	ctx.Next()
+	msg := a[2].(*string)
+	if c2, ok := a[0].(flamego.Context); !ok || c2 != ctx {
+		*msg = "argument 0 handed to a user-defined FastInvoker changed while the rest of the chain ran"
+	}
+	if r2, ok := a[1].(*http.Request); !ok || r2 != req {
+		*msg = "argument 1 handed to a user-defined FastInvoker changed while the rest of the chain ran"
+	}
+	f(ctx, req, msg)
+	return nil, nil
+}
+
 type flameInjCase struct {
-	App      []injReg `json:"app"`                            // Flame.Map*/Set
-	Req      []injReg `json:"request"`                        // Context.Map*/Set in the first handler of request 1
-	Params   []string `json:"params"`                         // parameters of the later handler
-	Wrapping string   `json:"wrapping"`                       // plain | context | http | handlerfunc | teapot | logger
-	Logger   bool     `json:"logger_re_registered,omitempty"` // the application re-registers *log.Logger (a type the framework maps itself): handlers must receive the later registration
-	Remap    bool     `json:"context_remapped,omitempty"`     // an earlier handler re-registers the Context type in the request scope (a decorating wrapper); later handlers must receive the wrapper
+	App      []injReg `json:"app"`                                 // Flame.Map*/Set
+	Req      []injReg `json:"request"`                             // Context.Map*/Set in the first handler of request 1
+	Params   []string `json:"params"`                              // parameters of the later handler
+	Wrapping string   `json:"wrapping"`                            // plain | context | http | handlerfunc | teapot | logger
+	Logger   bool     `json:"logger_re_registered,omitempty"`      // the application re-registers *log.Logger (a type the framework maps itself): handlers must receive the later registration
+	Late     bool     `json:"late_reading_fast_invoker,omitempty"` // a user-defined FastInvoker early in the chain calls Next() and reads its arguments afterwards
+	Remap    bool     `json:"context_remapped,omitempty"`          // an earlier handler re-registers the Context type in the request scope (a decorating wrapper); later handlers must receive the wrapper
 }
 
 // c04CtxWrap decorates the request's Context.
 type c04CtxWrap struct{ flamego.Context }
 
 func genFlameInjCase(rng *rand.Rand) *flameInjCase {
-	c := &flameInjCase{Wrapping: []string{"plain", "plain", "plain", "context", "http", "handlerfunc", "teapot", "logger"}[rng.Intn(8)], Remap: rng.Intn(3) == 0, Logger: rng.Intn(4) == 0}
+	c := &flameInjCase{Wrapping: []string{"plain", "plain", "plain", "context", "http", "handlerfunc", "teapot", "logger"}[rng.Intn(8)], Remap: rng.Intn(3) == 0, Logger: rng.Intn(4) == 0, Late: rng.Intn(3) == 0}
 	n := 0
 	gen := func() injReg {
 		key := c04Tys[rng.Intn(len(c04Tys))]
@@ -948,7 +974,23 @@ func judgeFlameInj(w *core.W, c *flameInjCase) {
 			svcOK = "a handler asking for *log.Logger did not receive the one the application registered last (a later registration replaces the earlier)"
 		}
 	}
-	f.Get("/i", func(ctx flamego.Context) { curCtx = ctx }, mapper, wrapped, loggerSeen, later)
+	twoLoggers := func(fl c04Flagger, lv c04Leveler) {
+		if _, ok := fl.(*stdlog.Logger); !ok {
+			svcOK = fmt.Sprintf("interface{ Flags() int } was resolved to a %T, which is not the registered implementor (*log.Logger of the standard library)", fl)
+		}
+		if _, ok := lv.(*log.Logger); !ok {
+			svcOK = fmt.Sprintf("interface{ GetLevel() log.Level } was resolved to a %T, which is not the registered implementor", lv)
+		}
+	}
+	hs := []flamego.Handler{func(ctx flamego.Context) { curCtx = ctx }, mapper}
+	lateMsg := ""
+	if c.Late {
+		f.Map(&lateMsg)
+		hs = append(hs, c04Late(func(flamego.Context, *http.Request, *string) {}))
+		w.Count("late-reading-fast-invoker")
+	}
+	hs = append(hs, twoLoggers, wrapped, loggerSeen, later)
+	f.Get("/i", hs...)
 
 	serve := func(withMap bool) (pan interface{}) {
 		o = injObs{}
@@ -965,6 +1007,9 @@ func judgeFlameInj(w *core.W, c *flameInjCase) {
 		accept := make([][]string, len(params))
 		for i := range params {
 			accept[i], _, _ = resolve(tbl, params[i])
+		}
+		if svcOK == "" && lateMsg != "" {
+			svcOK = lateMsg
 		}
 		if svcOK != "" {
 			w.Violate("services", c, label+": "+svcOK)
